@@ -559,7 +559,7 @@ def run_program(w, src: str, plans: Dict[str, ClassPlan], order: List[str], shap
 
 def run(w) -> None:
     rng = w.rng
-    n = 2400 if w.tier == "thorough" else 260
+    n = 12000 if w.tier == "thorough" else 1200
     flavours = ["plain", "plain", "plain", "slots", "dataclass", "frozen", "own-new"]
     for i in range(n):
         if i % w.nshards != w.shard:
